@@ -35,8 +35,12 @@ pub enum FileState {
     UnsupportedVersion,
     /// well-formed version-1 file followed by extra octets
     TrailingData,
+    /// the reader fails with an error that is the crate's OWN error type (a reader that validates what it read with
+    /// `TimeZone::from_tz_data(..)?`): still a failure to read, i.e. an I/O error, not a decoding error
+    UnreadableOwnError,
 }
-const STATES: [FileState; 14] = [
+const STATES: [FileState; 15] = [
+    FileState::UnreadableOwnError,
     FileState::InterruptedOnce,
     FileState::UnreadablePermission,
     FileState::UnreadableNotFound,
@@ -73,7 +77,7 @@ fn file_b() -> Vec<u8> {
 }
 fn bytes_of(s: FileState) -> Option<Vec<u8>> {
     match s {
-        FileState::Unreadable | FileState::UnreadablePermission | FileState::UnreadableNotFound | FileState::InterruptedOnce => None,
+        FileState::Unreadable | FileState::UnreadablePermission | FileState::UnreadableNotFound | FileState::UnreadableOwnError | FileState::InterruptedOnce => None,
         FileState::ValidA => Some(file_a()),
         FileState::ValidB => Some(file_b()),
         FileState::InvalidNoMagic => Some(b"# zone.tab style text, not a TZif file\n".to_vec()),
@@ -110,6 +114,10 @@ fn vfs_reader(path: &str) -> Result<Vec<u8>, Box<dyn std::error::Error + Send + 
         None => match st {
             FileState::UnreadablePermission => Err(Box::new(std::io::Error::from(std::io::ErrorKind::PermissionDenied))),
             FileState::UnreadableNotFound => Err(Box::new(std::io::Error::from(std::io::ErrorKind::NotFound))),
+            FileState::UnreadableOwnError => match TimeZone::from_tz_data(b"not a TZif file") {
+                Err(e) => Err(Box::new(e)),
+                Ok(_) => Err("unexpectedly decoded".into()),
+            },
             _ => Err("virtual file system: no such file".into()),
         },
     }
@@ -135,7 +143,7 @@ fn zone_of_file(st: FileState) -> Outcome {
     match st {
         FileState::ValidA => Outcome::Zone(Box::new(TimeZone::from_tz_data(&file_a()).unwrap())),
         FileState::ValidB => Outcome::Zone(Box::new(TimeZone::from_tz_data(&file_b()).unwrap())),
-        FileState::Unreadable | FileState::UnreadablePermission | FileState::UnreadableNotFound | FileState::InterruptedOnce => Outcome::Io,
+        FileState::Unreadable | FileState::UnreadablePermission | FileState::UnreadableNotFound | FileState::UnreadableOwnError | FileState::InterruptedOnce => Outcome::Io,
         // the outcome class follows the component that refuses the file's content (see `classify`)
         FileState::SemanticFooter | FileState::SemanticType => Outcome::StringError,
         _ => Outcome::DecodeError,
@@ -170,7 +178,7 @@ fn posix_zone(s: &[u8]) -> Outcome {
 }
 
 fn unreadable(st: FileState) -> bool {
-    matches!(st, FileState::Unreadable | FileState::UnreadablePermission | FileState::UnreadableNotFound | FileState::InterruptedOnce)
+    matches!(st, FileState::Unreadable | FileState::UnreadablePermission | FileState::UnreadableNotFound | FileState::UnreadableOwnError | FileState::InterruptedOnce)
 }
 
 /// The protocol model: ordered list of paths opened + outcome
@@ -503,12 +511,18 @@ pub fn run(args: &Args) -> i32 {
             }
             let n = cands.len().min(if args.digest_mode { 3 } else { 4 });
             let cands = &cands[..n];
-            for code in 0..STATES.len().pow(n as u32) {
+            // quick tier, four paths: the first path takes every state, the others the eleven states that differ in kind (one
+            // representative per kind of reader failure / decoder refusal); thorough: the full product
+            let base_of = |k: usize| if n >= 4 && k > 0 && !thorough { 11 } else { STATES.len() };
+            let total: usize = (0..n).map(base_of).product();
+            const REDUCED: [usize; 11] = [0, 1, 3, 4, 5, 6, 7, 8, 9, 10, 12];
+            for code in 0..total {
                 let mut c = code;
                 let mut vfs = BTreeMap::new();
-                for p in cands {
-                    vfs.insert(p.clone(), STATES[c % STATES.len()]);
-                    c /= STATES.len();
+                for (k, p) in cands.iter().enumerate() {
+                    let b = base_of(k);
+                    vfs.insert(p.clone(), if b == STATES.len() { STATES[c % b] } else { STATES[REDUCED[c % b]] });
+                    c /= b;
                 }
                 check_config(value, &dirs, &vfs, false, &rec, &mut tl);
                 if value == "localtime" {
